@@ -188,3 +188,74 @@ pub fn any_u64s<const N: usize>() -> [u64; N] {
     }
     a
 }
+
+/// Tagged symbolic inputs. Every input is drawn as a wider integer whose high bits are assumed equal to a
+/// running tag, so that each concrete-playback vector identifies the input it belongs to. Needed because the
+/// checks run with `--slice-formula` (without it concrete playback does not fit in memory), and the slicer
+/// removes the trace steps of inputs a failing check does not depend on: positions alone cannot be trusted.
+#[cfg(kani)]
+pub struct Draw {
+    next: u64,
+}
+#[cfg(kani)]
+impl Draw {
+    pub fn new() -> Self {
+        Draw { next: 1 }
+    }
+    fn tag(&mut self) -> u64 {
+        let t = self.next;
+        self.next += 1;
+        t
+    }
+    pub fn u8(&mut self) -> u8 {
+        let t = self.tag();
+        let raw: u32 = kani::any();
+        kani::assume((raw >> 8) as u64 == t);
+        raw as u8
+    }
+    pub fn bool(&mut self) -> bool {
+        let t = self.tag();
+        let raw: u32 = kani::any();
+        kani::assume((raw >> 8) as u64 == t && (raw & 0xfe) == 0);
+        raw & 1 == 1
+    }
+    pub fn u32(&mut self) -> u32 {
+        let t = self.tag();
+        let raw: u64 = kani::any();
+        kani::assume(raw >> 32 == t);
+        raw as u32
+    }
+    /// lengths / indices: values below 2^32
+    pub fn usize(&mut self) -> usize {
+        self.u32() as usize
+    }
+    pub fn char(&mut self) -> char {
+        let v = self.u32();
+        kani::assume(v < 0xD800 || (v > 0xDFFF && v < 0x11_0000));
+        unsafe { char::from_u32_unchecked(v) }
+    }
+    pub fn u64(&mut self) -> u64 {
+        let t = self.tag();
+        let raw: u128 = kani::any();
+        kani::assume((raw >> 64) as u64 == t);
+        raw as u64
+    }
+    pub fn bytes<const N: usize>(&mut self) -> [u8; N] {
+        let mut a = [0u8; N];
+        let mut i = 0;
+        while i < N {
+            a[i] = self.u8();
+            i += 1;
+        }
+        a
+    }
+    pub fn u64s<const N: usize>(&mut self) -> [u64; N] {
+        let mut a = [0u64; N];
+        let mut i = 0;
+        while i < N {
+            a[i] = self.u64();
+            i += 1;
+        }
+        a
+    }
+}
